@@ -71,8 +71,23 @@ def build_and_audit(pid, log):
         rc, out = run([PY, os.path.join(VERIF, "harness", "extract_constants.py")], timeout=120)
         log(out.strip())
         if rc == 3:
-            st["constants"] = "broken: " + out.strip().splitlines()[-1]
-            st["broken"].append("translator extract_constants.py: " + out.strip().splitlines()[-1])
+            # some literal could not be located (previous value kept): only properties whose Lean sources mention it are affected
+            m = re.search(r"^UNLOCATED (.*)$", out, re.M)
+            names = [n for n in (m.group(1).split(",") if m else ["*"]) if n]
+            used = set()
+            for mod in lean_sources_of("Labella.Props." + pid):
+                if mod == "Labella.Gen.Constants":
+                    continue
+                with open(os.path.join(LEAN, *mod.split(".")) + ".lean") as fh:
+                    txt = fh.read()
+                for n in names:
+                    if n == "*" or re.search(r"\b(Gen\.)?%s\w*\b" % re.escape(n), txt) and "Gen" in txt:
+                        used.add(n)
+            if used:
+                st["constants"] = "broken: could not locate %s in the source" % ", ".join(sorted(used))
+                st["broken"].append("translator extract_constants.py could no longer locate: " + ", ".join(sorted(used)))
+            else:
+                st["constants"] = "ok (unlocated constants not used by this property: %s)" % ", ".join(names)
         elif rc != 0:
             raise Infra("extract_constants failed: " + out)
         rc, out = run(["lake", "build", "driver"], cwd=LEAN)
